@@ -693,3 +693,9 @@ V("IN2-flag-forgotten-when-a-known-object-is-re-added", "C02", "IN2",
   ("tdms_segment.py", _IX_OLD, _IX_NEW), ("tdms_segment.py", _AP_OLD, _AP_NEW), ("tdms_segment.py", _FL_OLD, _FL_NEW))
 V("IN2-benign-flag-set-by-both-appending-branches", "C02", None,
   ("tdms_segment.py", _IX_OLD, _IX_NEW), ("tdms_segment.py", _AP_OLD, _AP_NEW), ("tdms_segment.py", _RU_OLD, _RU_NEW), ("tdms_segment.py", _FL_OLD, _FL_NEW))
+V("CE1-block-slice-ends-at-the-block-size", "C05", "CE1",
+  ("reader.py", "    num_chunks = (len(a) + chunk_size - 1) // chunk_size\n    for i in range(num_chunks):\n        offset = i * chunk_size\n        if not (a[offset:offset+chunk_size] == b[offset:offset+chunk_size]).all():\n",
+   "    for offset in range(0, len(a), chunk_size):\n        if not (a[offset:chunk_size] == b[offset:chunk_size]).all():\n"))
+V("CE1-benign-range-with-step", "C05", None,
+  ("reader.py", "    num_chunks = (len(a) + chunk_size - 1) // chunk_size\n    for i in range(num_chunks):\n        offset = i * chunk_size\n        if not (a[offset:offset+chunk_size] == b[offset:offset+chunk_size]).all():\n",
+   "    for offset in range(0, len(a), chunk_size):\n        if not (a[offset:offset + chunk_size] == b[offset:offset + chunk_size]).all():\n"))
